@@ -31,9 +31,73 @@ func genC14LatePeer(p *Plan, r *RNG) {
 	p.QuietNS = 10 * sec
 }
 
+// genC14Pair: two real clients whose peers are each other's relayed addresses: every datagram
+// crosses the library four times (client, relay, relay, client), channel bindings and
+// permissions on both allocations name a relayed address of the same server, and both clients
+// keep all of it alive for hours.
+func genC14Pair(p *Plan, r *RNG) {
+	baseSrvConfig(p, r)
+	p.Flavor = "e2e-pair"
+	p.Cfg.LatCSns = int64(r.Range(1, 80))*ms + int64(r.Intn(1000))*7 + 3
+	p.Cfg.LatSPns = int64(r.Range(1, 30))*ms + 5
+	p.Cfg.RTOms = r.PickInt([]int{0, 100, 200})
+	p.Cfg.Extra = map[string]int64{"perm_refresh_s": int64(r.PickInt([]int{0, 0, 30}))}
+	p.Cfg.AllocLifeS = r.PickInt([]int{0, 60, 600, 3600})
+	p.Cfg.ChanTimeoutS = r.PickInt([]int{0, 600, 1200})
+	p.Clients = []ClientSpec{{ID: "c1", Addr: "10.0.1.1:4000", User: "u1", Pass: "pw-one", Kind: "real"},
+		{ID: "c2", Addr: "10.0.1.2:4013", User: "u2", Pass: "pw-two", Kind: "real"}}
+	p.Peers = []PeerSpec{{ID: "p1", Addr: "10.0.2.1:5000"}}
+	p.Ops = append(p.Ops, Op{Actor: "c1", Kind: "alloc", At: gap(50 * ms)})
+	p.Ops = append(p.Ops, Op{Actor: "c2", Kind: "alloc", At: gap(int64(r.Range(10, 900)) * ms)})
+	p.Ops = append(p.Ops, Op{Actor: "", Kind: "wait", At: gap(1500 * ms)})
+	p.Ops = append(p.Ops, Op{Actor: "c1", Kind: "writeto", At: gap(int64(r.Range(10, 900)) * ms), A: OpArgs{Peer: "@c2", Len: 40}})
+	p.Ops = append(p.Ops, Op{Actor: "c2", Kind: "writeto", At: gap(int64(r.Range(10, 900)) * ms), A: OpArgs{Peer: "@c1", Len: 40}})
+	hours := r.Range(1, 4)
+	total := int64(hours) * 3600 * sec
+	var t int64
+	for t < total && len(p.Ops) < 110 {
+		g := int64(r.Range(1, 300)) * sec
+		if r.Chance(1, 4) {
+			g = int64(r.Range(20, 2000)) * ms
+		}
+		if r.Chance(1, 8) {
+			g = int64(r.Range(1000, 4000)) * sec
+		}
+		t += g
+		switch r.Intn(5) {
+		case 0, 1:
+			p.Ops = append(p.Ops, Op{Actor: "c1", Kind: "writeto", At: gap(g), A: OpArgs{Peer: "@c2", Len: r.Range(1, 400)}})
+		case 2, 3:
+			p.Ops = append(p.Ops, Op{Actor: "c2", Kind: "writeto", At: gap(g), A: OpArgs{Peer: "@c1", Len: r.Range(1, 400)}})
+		case 4:
+			// an ordinary peer besides
+			if r.Chance(1, 2) {
+				p.Ops = append(p.Ops, Op{Actor: "c1", Kind: "writeto", At: gap(g), A: OpArgs{Peer: p.Peers[0].Addr, Len: r.Range(20, 200)}})
+			} else {
+				p.Ops = append(p.Ops, Op{Actor: "p1", Kind: "peer_send", At: gap(g), A: OpArgs{Target: "c1", Len: r.Range(20, 200)}})
+			}
+		}
+	}
+	if r.Chance(1, 2) {
+		p.Ops = append(p.Ops, Op{Actor: r.Pick([]string{"c1", "c2"}), Kind: "close_relay", At: gap(int64(r.Range(1, 600)) * sec)})
+		p.Ops = append(p.Ops, Op{Actor: "c1", Kind: "writeto", At: gap(int64(r.Range(1, 20)) * sec), A: OpArgs{Peer: "@c2", Len: 33}})
+		p.Ops = append(p.Ops, Op{Kind: "wait", At: gap(10 * sec)})
+	}
+	p.QuietNS = 10 * sec
+}
+
 func genC14(p *Plan, r *RNG) {
 	if r.Chance(1, 6) {
 		genC14LatePeer(p, r)
+		return
+	}
+	if r.Chance(1, 6) {
+		genC14Pair(p, r)
+		return
+	}
+	if r.Chance(1, 8) {
+		// the RFC 6062 allocation of a live client: Dial and Accept hours apart
+		genRealTCP(p, r, true)
 		return
 	}
 	baseSrvConfig(p, r)
